@@ -275,7 +275,7 @@ def timer_cache_rule(F, chk):
     cands = [p for p in F.paths() if p.startswith("sozu_lib::timer::Timer") and p.endswith("::poll_to")]
     if not r.require(cands, "Timer::poll_to not found"):
         return
-    b = F.body(cands[0])
+    b = lib.flat(F, F.body(cands[0]))
     r.fn(b.path)
     resets = []
     for bi, si, st in b.stmts():
